@@ -17,11 +17,22 @@ type C06Delivery struct {
 	Link    int   `json:"link"`           // which peer session delivers it (mod number of peers)
 	Origin  int   `json:"origin"`         // index into the origin pool {r1 r2 r3 p0.. sut}
 	Epoch   int   `json:"epoch"`          // 0..2 -> e0<e1<e2 ; for origin sut: 0 = own epoch, 1 = older, 2 = newer
-	Seq     int   `json:"seq"`            // 0..5
+	Seq     int   `json:"seq"`            // 0..5 (bursts: 10 and up)
 	Adj     int   `json:"adj"`            // adjacency pool index
 	Replay  int   `json:"replay"`         // -1 fresh update; k>=0: re-deliver the update of delivery (k mod i) verbatim (same UpdateID)
 	Suspect int   `json:"suspect"`        // 0 none; 1..3 = SuspectedDuplicate e0..e2
 	Also    []int `json:"also,omitempty"` // further links that deliver the very same update at the same moment (remote origins only)
+}
+
+// c06Seq: 0..5 as drawn; greater values are taken as they are (runs of rising sequence numbers)
+func c06Seq(n int) uint64 {
+	if n < 0 {
+		n = -n
+	}
+	if n < 6 {
+		return uint64(n)
+	}
+	return uint64(n)
 }
 
 type C06Scn struct {
@@ -177,7 +188,7 @@ func execC06(b []byte) vx.Verdict {
 			}
 		} else {
 			origin := origins[d.Origin%len(origins)]
-			u = vx.RoutingUpdate{NodeID: origin, UpdateID: fmt.Sprintf("u%d", i), UpdateSequence: uint64(d.Seq % 6),
+			u = vx.RoutingUpdate{NodeID: origin, UpdateID: fmt.Sprintf("u%d", i), UpdateSequence: c06Seq(d.Seq),
 				Connections: c06Adj(d.Adj, origin)}
 			if origin == sutID {
 				switch d.Epoch % 3 {
